@@ -38,6 +38,7 @@ package command
 //@   ensures enqueued == old(enqueued) + 1
 //@   ensures tx != nil ==> tx.ID != nil && val(tx.ID) == old(val(commander.lastTXID)) + 1 && commander.lastTXID == tx.ID // C05
 //@   ensures tx == nil ==> commander.lastTXID == old(commander.lastTXID) // C05
+//@   ensures forall t0 *ledger.Transaction :: t0 != tx ==> t0.ID == old(t0.ID)
 //@   modifies Commander.lastLog, Commander.lastTXID, ledger.Transaction.ID, ledger.ChainedLog.Hash, pkg:batching, chan, ghost enqueued, ghost queueTail
 //@   property C05 C06
 // nextTXID: the id the next transaction will get; nothing is consumed (a dry run reports it)
